@@ -39,8 +39,29 @@ func (in *Interp) subSat(a, c *Term) *Term {
 	return b.Ite(ovf, b.Ite(sa, b.BV(minDur, 64), b.BV(maxDur, 64)), d)
 }
 
+// zflag returns the "is the zero time" condition of t.
+func (in *Interp) zflag(t TimeV) *Term {
+	if t.Kind == TimeZero {
+		return in.b.True
+	}
+	if t.Z != nil {
+		return t.Z
+	}
+	return in.b.False
+}
+
 func (in *Interp) timeSub(t, u TimeV) *Term {
 	b := in.b
+	if (t.Kind != TimeZero && t.Z != nil) || (u.Kind != TimeZero && u.Z != nil) {
+		tz, uz := in.zflag(t), in.zflag(u)
+		t2, u2 := t, u
+		t2.Z, u2.Z = nil, nil
+		base := b.BV(0, 64)
+		if t.Kind != TimeZero && u.Kind != TimeZero {
+			base = in.timeSub(t2, u2)
+		}
+		return b.Ite(b.And(tz, uz), b.BV(0, 64), b.Ite(tz, b.BV(minDur, 64), b.Ite(uz, b.BV(maxDur, 64), base)))
+	}
 	switch {
 	case t.Kind == TimeNanos && u.Kind == TimeNanos:
 		return in.subSat(t.V, u.V)
@@ -61,6 +82,16 @@ func (in *Interp) timeSub(t, u TimeV) *Term {
 
 func (in *Interp) timeBefore(t, u TimeV) *Term {
 	b := in.b
+	if (t.Kind != TimeZero && t.Z != nil) || (u.Kind != TimeZero && u.Z != nil) {
+		tz, uz := in.zflag(t), in.zflag(u)
+		t2, u2 := t, u
+		t2.Z, u2.Z = nil, nil
+		base := b.False
+		if t.Kind != TimeZero && u.Kind != TimeZero {
+			base = in.timeBefore(t2, u2)
+		}
+		return b.Ite(b.And(tz, uz), b.False, b.Ite(tz, b.True, b.Ite(uz, b.False, base)))
+	}
 	switch {
 	case t.Kind == u.Kind && t.Kind != TimeZero:
 		return b.SLt(t.V, u.V)
@@ -76,6 +107,16 @@ func (in *Interp) timeBefore(t, u TimeV) *Term {
 
 func (in *Interp) timeEqual(t, u TimeV) *Term {
 	b := in.b
+	if (t.Kind != TimeZero && t.Z != nil) || (u.Kind != TimeZero && u.Z != nil) {
+		tz, uz := in.zflag(t), in.zflag(u)
+		t2, u2 := t, u
+		t2.Z, u2.Z = nil, nil
+		base := b.False
+		if t.Kind != TimeZero && u.Kind != TimeZero {
+			base = in.timeEqual(t2, u2)
+		}
+		return b.Ite(b.And(tz, uz), b.True, b.Ite(b.Or(tz, uz), b.False, base))
+	}
 	if t.Kind == u.Kind {
 		if t.Kind == TimeZero {
 			return b.True
@@ -89,7 +130,7 @@ func (in *Interp) timeEqual(t, u TimeV) *Term {
 }
 
 func (in *Interp) timeStr(name string, t TimeV) *Str {
-	return in.ufStr(name, 1, 40, in.isCleanByte, nil, []*Term{in.b.BV(uint64(t.Kind), 8), t.V})
+	return in.ufStr(name, 1, 40, in.isCleanByte, nil, []*Term{in.b.BV(uint64(t.Kind), 8), t.V, in.zflag(t)})
 }
 
 func registerTime(e *Engine) {
@@ -98,6 +139,12 @@ func registerTime(e *Engine) {
 		if in.env != nil && in.env.Now != nil {
 			return in.env.Now(in)
 		}
+		if in.drawCursor < len(in.draws) {
+			d := in.draws[in.drawCursor]
+			in.drawCursor++
+			return in.timeNanos(d.Syms[0])
+		}
+		in.drawCursor++
 		n := len(in.draws)
 		sym := in.b.Sym(fmt.Sprintf("d%d_now", n), 64)
 		in.draws = append(in.draws, Draw{Kind: "now", Syms: []*Term{sym}, W: 64})
@@ -128,6 +175,9 @@ func registerTime(e *Engine) {
 		d := args[1].(Sc).T
 		switch t.Kind {
 		case TimeNanos:
+			if t.Z != nil {
+				return in.timeNanos(in.b.Ite(t.Z, in.uf("time.addzero", 64, d), in.b.Add(t.V, d)))
+			}
 			return in.timeNanos(in.b.Add(t.V, d))
 		case TimeZero:
 			if d.IsConst() && d.val == 0 {
@@ -147,18 +197,18 @@ func registerTime(e *Engine) {
 		return Sc{in.timeEqual(args[0].(TimeV), args[1].(TimeV))}
 	})
 	reg("(time.Time).IsZero", func(in *Interp, _ *frame, _ *ssa.Function, args []Value, _ tokenPos) Value {
-		t := args[0].(TimeV)
 		// time.Unix values are never the zero time within the modelled range
-		return Sc{in.b.Bool(t.Kind == TimeZero)}
+		return Sc{in.zflag(args[0].(TimeV))}
 	})
 	reg("(time.Time).UnixNano", func(in *Interp, _ *frame, _ *ssa.Function, args []Value, _ tokenPos) Value {
 		t := args[0].(TimeV)
 		b := in.b
+		zc := b.BV(uint64(zeroTimeUnixNano()), 64)
 		switch t.Kind {
 		case TimeNanos:
-			return Sc{t.V}
+			return Sc{b.Ite(in.zflag(t), zc, t.V)}
 		case TimeSecs:
-			return Sc{b.Mul(t.V, b.BV(1000000000, 64))}
+			return Sc{b.Ite(in.zflag(t), zc, b.Mul(t.V, b.BV(1000000000, 64)))}
 		}
 		// zero time: the real result is an overflowed constant
 		return Sc{b.BV(uint64(zeroTimeUnixNano()), 64)}
